@@ -3,6 +3,7 @@ package main
 import (
 	"context"
 	"fmt"
+	"io"
 	"runtime"
 	"sync"
 	"sync/atomic"
@@ -495,4 +496,137 @@ func driveLatchFree(beh behaviour, seed int64) *fw.Trace {
 		return &fw.Trace{Status: fw.DriverError, Note: r.kind + ": free-running closers did not finish"}
 	}
 	return r.finish(beh.Seed%8 == 0)
+}
+
+// ---- latch hammer ------------------------------------------------------------------------------------
+//
+// N persistent closer goroutines are released together by a spin barrier (atomic generation counter,
+// Gosched in the spin) onto a fresh instance of the component, round after round within a time box:
+// the schedule in which several closers are inside Dispose.Close at the same instant, which neither
+// one-at-a-time release from the entry hook nor loosely started goroutines produce. Per round the
+// number of runs of every clean-up action is logged (Round event).
+
+type hammerInst struct {
+	close   func()
+	counts  func() map[string]any
+	release func() // after the round
+}
+
+type countCloser struct{ n atomic.Int32 }
+
+func (c *countCloser) Read(p []byte) (int, error)  { return 0, io.EOF }
+func (c *countCloser) Write(p []byte) (int, error) { return len(p), nil }
+func (c *countCloser) Close() error                { c.n.Add(1); return nil }
+
+func newHammerInst(kind string, ctx context.Context) *hammerInst {
+	var h1, h2 atomic.Int32
+	f1 := func() error { h1.Add(1); return nil }
+	f2 := func() error { h2.Add(1); return nil }
+	base := func() map[string]any { return map[string]any{"h1": int(h1.Load()), "h2": int(h2.Load())} }
+	switch kind {
+	case "dispose":
+		d := dispose.NewDispose(ctx, f1)
+		d.AddCleanHandler(f2)
+		return &hammerInst{close: func() { d.Close() }, counts: base}
+	case "manager":
+		m := dispose.NewManager("verif", ctx)
+		m.AddCleanHandler(f1)
+		m.AddCleanHandler(f2)
+		return &hammerInst{close: func() { m.Close() }, counts: base}
+	case "stream":
+		rd, wr := &countCloser{}, &countCloser{}
+		sp := stream.NewStreamProcessor(rd, wr, ctx)
+		sp.AddCleanHandler(f1)
+		sp.AddCleanHandler(f2)
+		return &hammerInst{close: func() { sp.Close() }, counts: func() map[string]any {
+			m := base()
+			m["closeReader"], m["closeWriter"] = int(rd.n.Load()), int(wr.n.Load())
+			return m
+		}}
+	case "storage":
+		st := memory.New(ctx)
+		st.StartCleanup(time.Millisecond)
+		st.AddCleanHandler(f1)
+		st.AddCleanHandler(f2)
+		return &hammerInst{close: func() { st.Close() }, counts: base}
+	case "session":
+		sm := session.NewSessionManagerWithConfig(nil, ctx, &session.SessionConfig{
+			HeartbeatTimeout: time.Hour, CleanupInterval: time.Millisecond, MaxConnections: 10, MaxControlConnections: 10})
+		sm.AddCleanHandler(f1)
+		sm.AddCleanHandler(f2)
+		return &hammerInst{close: func() { sm.Close() }, counts: base}
+	case "mapping":
+		var ac atomic.Int32
+		ad := &madapter{rec: &rec{}, closed: make(chan struct{})}
+		h := mapping.NewBaseMappingHandler(&mclient{ctx: ctx, rec: &rec{}},
+			config.MappingConfig{MappingID: "pm-1", Protocol: "tcp", LocalPort: 1, TargetClientID: 9}, &countingAdapter{madapter: ad, n: &ac})
+		h.AddCleanHandler(f1)
+		h.AddCleanHandler(f2)
+		return &hammerInst{close: func() { h.Stop() }, counts: func() map[string]any {
+			m := base()
+			m["adapterClose"] = int(ac.Load())
+			return m
+		}}
+	}
+	panic("kind " + kind)
+}
+
+type countingAdapter struct {
+	*madapter
+	n *atomic.Int32
+}
+
+func (a *countingAdapter) Close() error { a.n.Add(1); return a.madapter.Close() }
+
+func driveHammer(beh behaviour, seed int64) *fw.Trace {
+	b := newBase(true, seed)
+	n := beh.Closers
+	var gen, finished atomic.Int64
+	var cur atomic.Pointer[hammerInst]
+	var stop atomic.Bool
+	var wg sync.WaitGroup
+	for i := 0; i < n; i++ {
+		wg.Add(1)
+		go func() {
+			defer wg.Done()
+			seen := int64(0)
+			for {
+				for gen.Load() == seen { // spin barrier
+					if stop.Load() {
+						return
+					}
+					yield()
+				}
+				seen = gen.Load()
+				inst := cur.Load()
+				b.rec.guard("Close", inst.close)
+				finished.Add(1)
+			}
+		}()
+	}
+	deadline := time.Now().Add(time.Duration(beh.Ms) * time.Millisecond)
+	rounds := 0
+	for rounds < beh.Rounds && time.Now().Before(deadline) {
+		inst := newHammerInst(beh.Comp, b.ctx)
+		cur.Store(inst)
+		finished.Store(0)
+		gen.Add(1)
+		t0 := time.Now()
+		for finished.Load() < int64(n) {
+			if time.Since(t0) > 10*time.Second {
+				stop.Store(true)
+				return &fw.Trace{Status: fw.DriverError, Note: beh.Comp + ": hammer closers did not return"}
+			}
+			yield()
+		}
+		b.rec.add(fw.Event{"ev": "Round", "counts": inst.counts()})
+		rounds++
+	}
+	stop.Store(true)
+	wg.Wait()
+	b.rec.add(fw.Event{"ev": "CloseCall", "p": "z"})
+	b.rec.add(fw.Event{"ev": "CloseRet", "p": "z"})
+	b.quiesce(beh.Comp, false, 0)
+	b.cancel()
+	return b.trace(beh.Comp, true)
 }
